@@ -213,6 +213,18 @@ def prove_bv_lemmas(spec_modules, groups):
     from .spec import REG
     from .lemmas import prove_bv64
     res = []
+    from .lemmas import prove_induction
+    from .symexec import Executor
+    from .spec import FnSpec
+    import ast as _ast
+    dummy = Executor(REG, FnSpec("", "lemma"), None, _ast.parse("def lemma(): pass").body[0])
+    for lem in REG.lemmas.values():
+        if lem.kind == "induction" and (lem.group in groups or not groups):
+            t0 = time.time()
+            for nm, r, cex in prove_induction(dummy, lem):
+                res.append({"name": f"lemma:{lem.name}/{nm}", "kind": "lemma-induction", "expect": "valid", "solver": "z3",
+                            "status": "discharged" if r == "unsat" else ("failed" if r == "sat" else "unknown"),
+                            "detail": cex, "time": round(time.time() - t0, 4)})
     for lem in REG.lemmas.values():
         if lem.kind == "bv64" and (lem.group in groups or not groups):
             t0 = time.time()
